@@ -18,6 +18,12 @@ import (
 )
 
 func TestMain(m *testing.M) {
+	// Every forced GC starts one mark worker per P; the heap here is tiny, and on
+	// a shared machine 16 spinning workers per GC only add contention (measured:
+	// 3x wall-clock at load > 100).  Two Ps are enough for checker + harness.
+	if os.Getenv("GOMAXPROCS") == "" {
+		runtime.GOMAXPROCS(2)
+	}
 	// self-check of the GC observation channel, before any limiter exists: one
 	// runtime.GC() must advance the forced-GC cycle counter by exactly one.
 	g0 := forcedGCs()
